@@ -16,6 +16,8 @@ def seeds_table():
             sig = (m.get("detected_by") or "")[:110]
         else:
             detected = "yes" if det["detected"] else "**no**"
+            if m.get("neutralised_by_fix") and not det["detected"]:
+                detected = "n/a (harmless after fix " + m["neutralised_by_fix"]["commit"] + ")"
             sig = ", ".join(f["signature"] for f in det["fired"][:2])[:110]
         ch = re.sub(r"\s+", " ", m.get("change", ""))
         ch = ch.replace("see notes.md (written by the seeding sub-agent): ", "").replace("|", "/")[:150]
